@@ -10,7 +10,7 @@ Definition dec_call (n : N) : option call :=
   end.
 
 Definition dec_point (n : N) : option point :=
-  match n with 0 => Some PEntry | 1 => Some PBefore | 2 => Some PWait1 | 3 => Some PWait2 | _ => None end.
+  match n with 0 => Some PEntry | 1 => Some PBefore | 2 => Some PWait1 | 3 => Some PWait2 | 4 => Some PInWrite | _ => None end.
 
 Definition dec_cause (n : N) : option cause :=
   match n with
@@ -58,6 +58,38 @@ Definition c11_cell_m (k : c11_cell_case) : bool :=
 
 Definition c11_cell_violations (l : list c11_cell_case) : list nat := indices_where (fun k => negb (c11_cell_v k)) l.
 Definition c11_cell_mismatches (l : list c11_cell_case) : list nat := indices_where (fun k => negb (c11_cell_m k)) l.
+
+(* ---------- sequences: stalled write + cancel + Close; Disconnect then Close ---------- *)
+(* kind (0 = call parked in Transport.Write, context cancelled, then Close; 1 = Disconnect whose write failed, then
+   Close; 2 = successful Disconnect, then Close), call, result, retryable, Done() closed, reader gone,
+   transport closed at the end, for kind 0/1: the intermediate observation was as expected (0: still blocked well
+   after the cancellation; 1: Disconnect returned the write error, Done() open), anything left/stuck *)
+Definition c11_seq_case := (N * N * N * bool * bool * bool * bool * bool * bool)%type.
+
+Definition c11_seq_v (x : c11_seq_case) : bool :=
+  let '(kind, c, r, retry, done, rexit, tcl, mid, bad) := x in
+  let o := mkO (dec_res r) retry done rexit in
+  negb bad && tcl && mid &&
+  match kind, dec_call c with
+  | 0, Some c => rclass_eqb (o_res o) KWrite && done && rexit
+  | 1, Some CDisconnect => dseq_ok 0 o
+  | 2, Some CDisconnect => dseq_ok 1 o
+  | _, _ => false
+  end.
+
+Definition c11_seq_m (x : c11_seq_case) : bool :=
+  let '(kind, c, r, retry, done, rexit, tcl, mid, bad) := x in
+  let o := mkO (dec_res r) retry done rexit in
+  mid &&
+  match kind, dec_call c with
+  | 0, Some c => has_outcome o (seq_outcomes c PInWrite [CtxCancel; LocalClose] LocalClose)
+  | 1, Some CDisconnect => has_outcome o (dseq_outcomes 0)
+  | 2, Some CDisconnect => has_outcome o (dseq_outcomes 1)
+  | _, _ => false
+  end.
+
+Definition c11_seq_violations (l : list c11_seq_case) : list nat := indices_where (fun k => negb (c11_seq_v k)) l.
+Definition c11_seq_mismatches (l : list c11_seq_case) : list nat := indices_where (fun k => negb (c11_seq_m k)) l.
 
 (* ---------- stray acknowledgements before the cause ---------- *)
 (* call (9 = no call blocked), point, cause, k, result, retryable, Done() closed, reader gone,
@@ -132,7 +164,8 @@ Definition dec_rphase (n : N) : option rphase :=
   match n with
   | 0 => Some RC_DialFail | 1 => Some RC_DialHang | 2 => Some RC_AckWithheld | 3 => Some RD_Never
   | 4 => Some RD_AfterFailed | 5 => Some RD_DuringDialFail | 6 => Some RD_WaitConnAck
-  | 7 => Some RD_Connected | 8 => Some RD_BackoffAfterLoss | _ => None
+  | 7 => Some RD_Connected | 8 => Some RD_BackoffAfterLoss
+  | 9 => Some RC_DialFailBackoff | 10 => Some RC_RefusedBackoff | 11 => Some RC_RefusedThenDialHang | _ => None
   end.
 
 Definition dec_rcause (n : N) : option rcause :=
